@@ -72,7 +72,10 @@ def runHistory (pk : PublicKey) (sk : PrivateKey) (nu0 : Int) (time0 : Int) (ste
         let badevents := (getBool st "badevents").toOption.getD false
         let badk := (getNat st "badk").toOption.getD 0
         let evs := if badevents ∧ evs0.length > 0 then
-            evs0.mapIdx fun i e => if i = badk % evs0.length then { e with e := e.e + 2 } else e
+            evs0.mapIdx fun i e => if i = badk % evs0.length then
+              { e with e := match (getInt st "bade").toOption with
+                              | some v => v      -- a value of the attacker's choosing
+                              | none => e.e + 2 } else e
           else evs0
         h := { h with updates := (uid, { sacc := sacc, events := evs }) :: h.updates.filter (·.1 ≠ uid) }
         out := out ++ ["update-ok"]
